@@ -92,13 +92,33 @@ func C12(c *core.Ctx) {
 				c.Und(key+"/order-sensitive", mr.stmt.Pos(), "iteration over a map whose body depends on iteration order, in a routine with no order-independence harness: map order must not reach output")
 				continue
 			}
+			var evA, evB []*eval.Evaluator
+			evalTrace = &evA
 			a, err1 := h(c, false)
+			evalTrace = &evB
 			b, err2 := h(c, true)
+			evalTrace = nil
 			if err1 != nil || err2 != nil {
 				c.Und(key+"/order-sensitive", mr.stmt.Pos(), "cannot evaluate the enclosing routine: %v %v", err1, err2)
 				continue
 			}
 			c.Ob(key+"/order-independent-result", a == b, mr.stmt.Pos(), "result depends on map iteration order: forward %q, reversed %q", firstN(a, 200), firstN(b, 200))
+			// the model sorts stably; sort.Slice promises no order among elements that compare equal, so where such a
+			// sort receives its input in an order that follows the map's, the result is not determined by the input
+			var unstable []string
+			var upos token.Pos
+			for i := 0; i < len(evA) && i < len(evB); i++ {
+				sa, sb := evA[i].SortCalls, evB[i].SortCalls
+				for k := 0; k < len(sa) && k < len(sb); k++ {
+					if sa[k].Func != "sort.SliceStable" && (sa[k].Ties || sb[k].Ties) && sa[k].Input != sb[k].Input {
+						unstable = append(unstable, fmt.Sprintf("%s: %s sorts elements that arrive in map iteration order and some of them compare equal: their final order is whatever the unstable sort leaves", c.PosStr(sa[k].Pos), sa[k].Func))
+						upos = sa[k].Pos
+					}
+				}
+			}
+			sort.Strings(unstable)
+			unstable = uniqStrings(unstable)
+			c.Ob(key+"/no-unstable-sort-of-map-ordered-ties", len(unstable) == 0, upos, "%s", first(unstable, 2))
 			c.Sample(map[string]string{"rule": "C-map", "routine": fkey, "result_under_both_orders": firstN(a, 120)})
 		}
 	}
@@ -610,13 +630,17 @@ func onlyReturned(v ssa.Value) bool {
 	return walk(v)
 }
 
-func checkStdoutWriters(c *core.Ctx, p *progFacts, rule string) {
+// pkgs restricts the rule to code of the named packages (the ones the property's command runs); none means all of pkg/.
+func checkStdoutWriters(c *core.Ctx, p *progFacts, rule string, pkgs ...string) {
 	allowed := map[string]bool{"sam." + currentName(c, "pkg/sam", "writePairwiseAlignment"): true, "gfio." + currentName(c, "pkg/gfio", "OpenOut"): true}
 	var bad []string
 	var bpos token.Pos
 	nref := 0
 	for _, f := range p.funcs {
 		if f.Pkg == nil || !strings.HasPrefix(c.RelOf(f.Pkg.Pkg), "pkg/") {
+			continue
+		}
+		if len(pkgs) > 0 && !containsStr(pkgs, c.RelOf(f.Pkg.Pkg)) {
 			continue
 		}
 		if strings.HasSuffix(c.Fset.Position(f.Pos()).Filename, "pkg/sam/indels.go") {
@@ -657,5 +681,9 @@ func checkStdoutWriters(c *core.Ctx, p *progFacts, rule string) {
 	}
 	sort.Strings(bad)
 	c.Ob(rule+"/only-result-writers-use-stdout", len(bad) == 0, bpos, "%s", first(bad, 3))
-	c.Floor(rule+"/stdout-references", nref, 2)
+	if len(pkgs) == 0 {
+		c.Floor(rule+"/stdout-references", nref, 2)
+	} else {
+		c.Count("stdout_references_in_scope", nref)
+	}
 }
